@@ -69,6 +69,19 @@ def cases(tier, rng):
                "group": "raster-api"}
 
 
+def corpus():
+    # exactly 256 (and 255 / 257) outlet entries: the label of the last outlet must survive whatever type the map is given
+    out = []
+    for nr, nc in ((16, 16), (15, 17), (1, 257)):
+        flw = [1] * (nr * nc)                 # every cell flows east; the last column holds the pits
+        for r in range(nr):
+            flw[r * nc + nc - 1] = 0
+        ds = nets.d8_decode(flw, nr, nc)
+        out.append({"k": 1000, "args": [ds, []], "call": {"nr": nr, "nc": nc, "flw": flw, "cellsize": 1, "method": "eam_plus", "seed": 5},
+                    "group": "corpus-many-outlets"})
+    return out
+
+
 def _oq(vals, nodata):
     out = []
     for v in vals:
@@ -175,9 +188,26 @@ def _api(call, ds):
         if sum(a_ for a_ in are if a_ > 0) != sum(1 for x in exp_m if x > 0):
             bad.append("areas do not add up to the number of labelled cells")
     hand = np.array([rng.randint(0, 3) for _ in range(n)], dtype=np.float32).reshape(nr, nc)
-    st, v = call_impl(flw.ucat_volume, outs, hand, depths=np.array([1.0, 3.0], dtype=np.float32))
+    depths = [1.0, 3.0]
+    st, v = call_impl(flw.ucat_volume, outs, hand, depths=np.array(depths, dtype=np.float32))
     if st != "ok":
         bad.append(f"ucat_volume -> {st}")
+    else:
+        # same labels as ucat_area; volume = sum over the labelled cells of max(depth - hand, 0) x cell area (1 here)
+        mv_, vol = [int(x) for x in np.asarray(v[0]).ravel()], np.asarray(v[1])
+        hf = [float(x) for x in hand.ravel()]
+        if "exp_m" in locals() and mv_ != exp_m:
+            bad.append(f"ucat_volume map {mv_} differs from the expected unit-catchment map {exp_m}")
+        elif vol.shape != (len(depths),) + tuple(outs.shape):
+            bad.append(f"ucat_volume volume shape {vol.shape}")
+        elif "exp_m" in locals():
+            for di, d in enumerate(depths):
+                got = [float(x) for x in vol[di].ravel()]
+                for kk, x in enumerate(o):
+                    exp_v = -9999.0 if x < 0 else sum(max(d - hf[i], 0.0) for i in range(n) if exp_m[i] == kk + 1)
+                    if abs(got[kk] - exp_v) > 1e-4 * max(1.0, abs(exp_v)):
+                        bad.append(f"ucat_volume depth {d} outlet {kk}: {got[kk]} expected {exp_v}")
+                        break
     for name in ("subgrid_rivlen", "subgrid_rivavg", "subgrid_rivmed"):
         kw = {} if name == "subgrid_rivlen" else {"data": hand}
         st, v = call_impl(getattr(flw, name), outs, direction=rng.choice(["up", "down"]), **kw)
